@@ -234,32 +234,51 @@ example : let cs := [BCall.excludeFooters, .pageRange 1 2, .pages [4, 1]]
   rcases this with h | h | h <;> subst h <;> decide
 
 /-- what the property says about the fragments `fs` handed on for readable page `k` of `src` under
-exclusion: only deletions, in order; the body band untouched; on a word-level page a deletion only in
-a margin band of that page and only of a text that a region detected on ≥ 2 of the readable pages (and
-covering this page) has as its pattern, or of a page-number pattern under a page-number region; and
-nothing at all deleted when no marginal text repeats across the readable pages. -/
+exclusion: only deletions, in order; the body band untouched (on a character-level page: the glyphs of
+lines outside both bands); on a word-level page a deletion only in a margin band of that page and only
+of a text that a region detected on ≥ 2 of the readable pages (and covering this page) has as its
+pattern, or of a page-number pattern under a page-number region; on a character-level page the same
+with the assembled LINE the glyph belongs to in place of the fragment (F8 repaired); and nothing at all
+deleted when no marginal text repeats across the readable pages. -/
 def PageStatement (src : Source) (k : Nat) (fs : List Frag) : Prop :=
   ∃ rp, src[k]? = some (some rp) ∧ fs.Sublist rp.frags ∧
-    (∀ f ∈ rp.frags, inTop (bands defaultConfig rp.frags rp.height) f = false →
-      inBottom (bands defaultConfig rp.frags rp.height) f = false → f ∈ fs) ∧
+    (isCharacterLevel rp.frags = false →
+      ∀ f ∈ rp.frags, inTop (bands defaultConfig rp.frags rp.height) f = false →
+        inBottom (bands defaultConfig rp.frags rp.height) f = false → f ∈ fs) ∧
+    (isCharacterLevel rp.frags = true →
+      ∀ f ∈ rp.frags, (∀ g ∈ charLines rp.frags, f ∈ g → ∀ l, assembleLine g = some l →
+        inTop (bands defaultConfig (assembleFragmentsIntoLines rp.frags) rp.height) l = false ∧
+        inBottom (bands defaultConfig (assembleFragmentsIntoLines rp.frags) rp.height) l = false) → f ∈ fs) ∧
     (isCharacterLevel rp.frags = false → ∀ f ∈ rp.frags, f ∉ fs →
       ∃ kind r, r ∈ (detect defaultConfig (collectAllPages src)).regions kind ∧
         DetectedAt defaultConfig (collectAllPages src) kind r ∧ (k : Int) ∈ r.pages ∧
         inRegion kind (bands defaultConfig rp.frags rp.height) f = true ∧
         (normalize (trimSpace f.text) = r.pattern ∨
           (r.isPageNumber = true ∧ isPageNumberPattern (normalize (trimSpace f.text)) = true))) ∧
+    (isCharacterLevel rp.frags = true → ∀ f ∈ rp.frags, f ∉ fs →
+      ∃ g ∈ charLines rp.frags, f ∈ g ∧ ∃ l, assembleLine g = some l ∧
+        ∃ kind r, r ∈ (detect defaultConfig (collectAllPages src)).regions kind ∧
+          DetectedAt defaultConfig (collectAllPages src) kind r ∧ (k : Int) ∈ r.pages ∧
+          inRegion kind (bands defaultConfig (assembleFragmentsIntoLines rp.frags) rp.height) l = true ∧
+          (normalize (trimSpace l.text) = r.pattern ∨
+            (r.isPageNumber = true ∧ isPageNumberPattern (normalize (trimSpace l.text)) = true))) ∧
     ((∀ kind key, (distinctPages (groupOf (extractCandidates defaultConfig kind
         (preprocessPages (collectAllPages src))) key)).length < 2) → fs = rp.frags)
 
 theorem pageStatement_of_input (o : Options) (src : Source) (k : Nat) (fs : List Frag)
     (h : pageInput o src k = .ok fs) : PageStatement src k fs := by
   obtain ⟨rp, hrp, _, hsub⟩ := request_only_deletes o src k fs h
-  refine ⟨rp, hrp, hsub, ?_, ?_, ?_⟩
-  · intro f hf ht hb
-    obtain ⟨fs', h', hm⟩ := body_untouched_request o src k rp hrp f hf ht hb
+  refine ⟨rp, hrp, hsub, ?_, ?_, ?_, ?_, ?_⟩
+  · intro hword f hf ht hb
+    obtain ⟨fs', h', hm⟩ := body_untouched_request o src k rp hrp f hf hword ht hb
+    rw [h] at h'; cases h'; exact hm
+  · intro hcl f hf hout
+    obtain ⟨fs', h', hm⟩ := body_untouched_request_charlevel o src k rp hrp f hf hcl hout
     rw [h] at h'; cases h'; exact hm
   · intro hword f hf hrem
     exact (removed_only_if_request o src k rp hrp hword fs h f hf hrem).2
+  · intro hcl f hf hrem
+    exact (removed_only_if_request_charlevel o src k rp hrp hcl fs h f hf hrem).2
   · intro hrep
     have := no_repetition_request o src hrep k rp hrp
     rw [h] at this; cases this; rfl
